@@ -10,8 +10,8 @@
   Ops
     jl.tordf  <mode:10|11> <base x<hex>|-> <json>          → ok:<quads> | outside
     jl.write  <mode> <base> <choices> <context json|-> <quads> → ok:<json> <base>   (Spec.JsonLdWriter.write)
-    jl.encode <cfg> <quads>                                 → ok:<json>            (Model.JsonLdEncoder.encode)
-    jl.cert   <cfg> <quads>                                 → true | false         (certificate of the encoder theorem)
+    jl.encode <base> <prefixes> <buffered> <hint> <quads>   → ok:<json>            (Model.JsonLdEncoder.encode)
+    jl.cert   <mode> <doc base> <base> <prefixes> <buffered> <hint> <quads> → cert=… dg=… nonative=… wf=… acyclic=… clash=…
 -/
 import RdfModel.Driver.Wire
 import RdfModel.Spec.JsonLdFragment
@@ -176,20 +176,27 @@ def parseCfg (b ps buf : String) : Option (Cfg L) := do
 
 def b01 (b : Bool) : String := if b then "1" else "0"
 
+/-- blank node labels `<hex>;…|-`: the roots the implementation chose in the second pass of
+    `ExportResources` (Go map iteration order is a parameter of the model), tried first -/
+def parseHint (s : String) : Option (List (Term L)) :=
+  if s = "-" then some [] else (s.splitOn ";").mapM fun h => (unhex h).map fun b => Term.bnode (utf8Decode b)
+
 def handle (op : String) (args : List String) : Option String :=
   match op, args with
-  | "encode", [b, ps, buf, qs] => do
+  | "encode", [b, ps, buf, hint, qs] => do
     let cfg ← parseCfg b ps buf
     let d ← parseQuads qs
-    match encode cfg d (defaultOrd d) with
+    let hint ← parseHint hint
+    match encode cfg d (defaultOrd d) (hint ++ defaultOrd d) with
     | some doc => pure ("ok:" ++ showJson doc)
     | none => pure "diverges"
-  | "cert", [m, db, b, ps, buf, qs] => do
+  | "cert", [m, db, b, ps, buf, hint, qs] => do
     let m ← parseMode m
     let db ← parseBase db
     let cfg ← parseCfg b ps buf
     let d ← parseQuads qs
-    let cert := encCert m db cfg d (defaultOrd d)
+    let hint ← parseHint hint
+    let cert := encCert m db cfg d (defaultOrd d) (hint ++ defaultOrd d)
     let acyclic := decide (C17.Acyclic1 (d.map (·.t)))
     pure ("cert=" ++ b01 cert ++ " dg=" ++ b01 (defaultGraphOnly d) ++ " nonative=" ++ b01 (noNativeTyped d) ++
       " wf=" ++ b01 (decide (WFDataset d)) ++ " acyclic=" ++ b01 acyclic ++ " clash=" ++ b01 (schemeClash cfg d))
